@@ -382,6 +382,15 @@ def run():
                     cases.append(gen.message(depth, mode, content))
         for _ in range(60 if thorough else 12):
             cases.append(gen.message(rng.choice([0, 1, 2, 3]), "rand", content))
+    # payloads that carry two kinds of content at once: a sender-key distribution riding with the message (what a group member sends
+    # in answer to a retry request, or with the first group message)
+    for content in contents:
+        if content in ("sender_key_distribution_message", "protocol"):
+            continue
+        for mode in ("required", "all"):
+            o = gen.message(0, mode, content)
+            o["fields"]["sender_key_distribution_message"] = gen.obj(CONTENT["sender_key_distribution_message"], 0, "all")
+            cases.append(o)
     cf = os.path.join(r.scratch.path, "payload_cases.json")
     json.dump(cases, open(cf, "w"))
     res = core.tlc("Payload_Eval", "Payload_Eval.cfg", r.scratch, workers=1, env={"CASES_FILE": cf}, timeout=1800)
@@ -397,7 +406,7 @@ def run():
         if not out["ok"]:
             raise core.MachineryError("model round trip fails for case %d" % ci)
         wire = out["wire"]
-        content = sorted(o["fields"])[0]
+        content = "+".join(sorted(o["fields"]))
         depth = json.dumps(o).count('"quoted_message"')
         r.case(ci)
         label = "%s:depth%d" % (content, depth)
